@@ -790,9 +790,12 @@ def cmp_table(c, io, drv):
     if c["entry"] == "table_getitem":
         mod = [dec(drv["model"])] if drv["model"] is not None else None
         spec = [dec(drv["spec"])]
-        if mod is None or got != mod or io["end"] != "stop":
+        as_spec = got == spec and io["end"] == "stop"
+        # (where model and spec differ - negative fractional index, D15 - either is accepted as
+        #  "the code as modelled or as repaired"; only the spec decides the property)
+        if (mod is None or got != mod or io["end"] != "stop") and not as_spec:
             res.append(("model", "TableLookup[idx]: impl=%s/%s model=%s" % (io["out"], io["end"], drv["model"])))
-        if got != spec or io["end"] != "stop":
+        if not as_spec:
             res.append(("spec", "TableLookup[idx]: impl=%s/%s spec=%s (cyclic linear interpolation)" % (io["out"], io["end"], drv["spec"])))
         return res
     if any(x is None for x in drv["model"]):
